@@ -169,7 +169,7 @@ func (p *process) tryRestart(v any) {
 	// a remote node. By doing this, we can keep dialing until it comes
 	// back up. NOTE: not sure if that is the best option. What if that
 	// node never comes back up again?
-	if msg, ok := v.(*InternalError); ok {
+	if msg, ok := v.(*InternalError); ok && msg != nil {
 		p.stopReceiver()
 		slog.Error(msg.From, "err", msg.Err)
 		time.Sleep(p.Opts.RestartDelay)
